@@ -80,7 +80,7 @@ Lemma members_before : forall fuel E root g order,
   exists m, In m preds /\ before m p order /\ represents E m var c.
 Proof.
   intros fuel E root g order Hg Ht p preds Hin Hlit var c Hc Hsk. unfold type_graph in Hg.
-  destruct (bfs_entry _ _ _ _ _ Hg _ _ Hin) as [[Hl _]|[_ [V0 [path [V1 Hex]]]]]; [congruence|].
+  destruct (bfs_entry _ _ _ _ _ Hg _ _ Hin) as [[Hl _]|[_ [st0 [path [st1 Hex]]]]]; [congruence|].
   destruct (expand_complete _ _ _ _ _ _ Hex var c Hc Hsk) as [m [Hm R]].
   exists m; split; [exact Hm|]. split; [|exact R]. destruct Ht as [_ [_ [_ Hedge]]]. eapply Hedge; eauto.
 Qed.
@@ -106,7 +106,7 @@ Lemma flags : forall fuel E root g,
        exists p preds var c, In (p, preds) g /\ In n preds /\ In (var, c) (level E (unwrap (ntype p))) /\
          skip var c = false /\ nvar n = var /\ nfor n = c /\ can_be_cyclic E (unwrap c) = true /\
          (n = mkdefer c (unwrap c) var \/ mkref E c (unwrap c) var = Some n) /\
-         exists V0 path, revisit c (unwrap c) (seen_set E (unwrap c) V0 path) = true).
+         exists st0 path, visitedb E c (unwrap c) var st0 path = true).
 Proof.
   intros fuel E root g Hg Hroot Hnoref n Hn. unfold type_graph in Hg.
   assert (Hkey : forall p preds, In (p, preds) g -> ncyc p = false /\ (is_ref (ntype p) = true -> False)).
@@ -114,22 +114,22 @@ Proof.
     destruct (bfs_keys _ _ _ _ _ Hg _ _ _ Hi) as [Hr|[j [p' [preds' [_ [Hnj [Hip Hc]]]]]]].
     - destruct Hr as [Hr|[]]; subst p; cbn; split; [reflexivity | congruence].
     - split; [exact Hc|]. apply nth_error_In in Hnj.
-      destruct (bfs_entry _ _ _ _ _ Hg _ _ Hnj) as [[_ He]|[_ [V0 [path [V1 Hex]]]]]; [subst; contradiction|].
+      destruct (bfs_entry _ _ _ _ _ Hg _ _ Hnj) as [[_ He]|[_ [st0 [path [st1 Hex]]]]]; [subst; contradiction|].
       destruct (expand_sound _ _ _ _ _ _ Hex _ Hip) as [var [c [Hkid [_ [[_ [_ [[_ Hm]|[[Hc' _]|[Hc' _]]]]] _]]]]]; try congruence.
       subst p; cbn. rewrite (Hnoref _ _ _ _ Hnj Hkid). congruence. }
   unfold adj_nodes in Hn. apply in_flat_map in Hn. destruct Hn as [[p preds] [Hin Hn]]. cbn in Hn.
   destruct Hn as [Hn|Hn].
   - subst n. destruct (Hkey _ _ Hin) as [Hc Hr]. split; [intros H; destruct (Hr H) | congruence].
-  - destruct (bfs_entry _ _ _ _ _ Hg _ _ Hin) as [[_ He]|[_ [V0 [path [V1 Hex]]]]]; [subst; contradiction|].
+  - destruct (bfs_entry _ _ _ _ _ Hg _ _ Hin) as [[_ He]|[_ [st0 [path [st1 Hex]]]]]; [subst; contradiction|].
     destruct (expand_sound _ _ _ _ _ _ Hex _ Hn) as [var [c [Hkid [Hsk [[Hv [Hf Hcase]] Hrev]]]]].
     split.
     + intros Hr. destruct Hcase as [[_ Hm]|[[Hc' _]|[Hc' _]]]; auto.
       subst n; cbn in Hr. rewrite (Hnoref _ _ _ _ Hin Hkid) in Hr; discriminate.
-    + intros Hc. destruct (Hrev Hc) as [V2 [_ [_ Hrv]]].
+    + intros Hc. destruct (Hrev Hc) as [st2 Hrv].
       exists p, preds, var, c. repeat split; auto.
       * destruct Hcase as [[Hc' _]|[[_ [_ Hcc]]|[_ [_ Hcc]]]]; [congruence | exact Hcc | exact Hcc].
       * destruct Hcase as [[Hc' _]|[[_ [Hd _]]|[_ [Hm _]]]]; [congruence | left; exact Hd | right; exact Hm].
-      * exists V2, path; exact Hrv.
+      * exists st2, path; exact Hrv.
 Qed.
 
 (* a string alias is one node carrying the reference to its body, and it is not expanded *)
@@ -142,6 +142,6 @@ Proof.
   assert (Hshape : ncyc p = false /\ nunw p = unwrap (ntype p)).
   { eapply bfs_key_shape; eauto. intros q [Hq|[]]; subst q; cbn; auto. }
   destruct Hshape as [Hc Hu]. rewrite Ht in Hu. cbn in Hu. split; [|split; [exact Hc | exact Hu]].
-  destruct (bfs_entry _ _ _ _ _ Hg _ _ Hin) as [[_ He]|[_ [V0 [path [V1 Hex]]]]]; [exact He|].
+  destruct (bfs_entry _ _ _ _ _ Hg _ _ Hin) as [[_ He]|[_ [st0 [path [st1 Hex]]]]]; [exact He|].
   rewrite Ht in Hex. cbn in Hex. inversion Hex; reflexivity.
 Qed.
